@@ -50,7 +50,7 @@ def Block.eq (a b : Block) : Bool :=
 
 structure Packet where
   parserblocks : List Block
-  numberofblocks : Nat          -- set to 0 by the constructor and never written again
+  numberofblocks : Nat          -- set to 0 by the constructor, to the block count by a successful unpack
   deriving Repr, DecidableEq
 
 def Packet.fresh : Packet := { parserblocks := [], numberofblocks := 0 }
@@ -65,7 +65,7 @@ def moreLt (off len : Nat) : Bool := decide (off < len)
 
 def Packet.unpack (s : Packet) (buf : Bytes) : Packet × R Unit :=
   match decOff decBlock moreLt buf (buf.length + 1) 0 with
-  | .ok bs => ({ s with parserblocks := bs }, .ok ())
+  | .ok bs => ({ parserblocks := bs, numberofblocks := bs.length }, .ok ())
   | .error e => ({ s with parserblocks := [] }, .error e)
 
 def packBlocks : List Block → List Block × R Bytes
